@@ -14,7 +14,7 @@ var globalExprImageExc = func() map[string]string {
 var cloneSpecs = []cloneSpec{
 	{Name: "ir.CloneModuleForOverrides+ProcessOverrides", CloneFn: "ir.CloneModuleForOverrides", Mutators: []string{"ir.ProcessOverrides"}, MutPkgs: inPkgs("ir"), Exc: globalExprImageExc},
 	{Name: "msl.applyPipelineConstants", CloneFn: "msl/internal/codegen.applyPipelineConstants", Mutators: []string{"msl/internal/codegen.applyPipelineConstants"}, MutPkgs: inPkgs("msl/internal/codegen", "ir")},
-	{Name: "dxil.prepareModule+passes", CloneFn: "ir.CloneModuleForOverrides", Mutators: []string{"ir.InlineUserFunctions", "dxil/internal/passes/sroa.Run", "dxil/internal/passes/mem2reg.Run", "dxil/internal/passes/dce.Run"}, MutPkgs: inPkgs("ir", "dxil/internal/passes")},
+	{Name: "dxil.prepareModule+passes", CloneFn: "ir.CloneModuleForOverrides", Mutators: []string{"ir.InlineUserFunctions", "dxil/internal/passes/sroa.Run", "dxil/internal/passes/mem2reg.Run", "dxil/internal/passes/dce.Run", "dxil/internal/emit.EmitWithFlags"}, MutPkgs: inPkgs("ir", "dxil/internal/passes", "dxil/internal/emit")},
 }
 
 func init() {
